@@ -96,7 +96,7 @@ def sys_history(rng, nlocs=None, nops=None, check_stream=False, cache_ttl=False,
         op["loc"] = l
         ops.append(op)
         if cache_ttl and rng.random() < 0.12:
-            ops.append({"op": "addFact", "id": "", "fact": {"!cacheTTL": rng.choice([0, 3600000])}, "loc": rng.choice(locs)})
+            ops.append({"op": "addFact", "id": "", "fact": {"!cacheTTL": rng.choice([0, 3600000, 0, 3600000, "10m", True, [1]])}, "loc": rng.choice(locs)})
         if cache_ttl and rng.random() < 0.04:
             ops.append({"op": "remFact", "id": "!.cacheTTL", "loc": rng.choice(locs)})
         if sleeps and rng.random() < 0.12:
